@@ -157,6 +157,7 @@ struct state
   double t0 = 0;
   bool in_child = false;
   bool stopped_early = false;
+  bool muted = false; // re-execution of cases before the resume point: run, but do not report again
   std::map<std::string, std::uint64_t> counters;
 };
 
@@ -314,6 +315,8 @@ inline void write_violation_line(violation const &v)
 inline void fail(std::string const &sig, std::string const &what)
 {
   state &s = S();
+  if (s.muted)
+    return;
   std::uint64_t &c = s.viol_count[sig];
   ++c;
   s.counters["viol:" + sig] = c;
@@ -447,6 +450,10 @@ inline std::string crash_kind(std::string const &err, int status, bool hang)
       r.resize(60);
     return "ubsan:" + r;
   }
+  if (err.find("VRT-DEADLOCK") != std::string::npos)
+    return "deadlock";
+  if (err.find("VRT-UNSUPPORTED-SYNC") != std::string::npos)
+    return "unsupported_sync_primitive";
   if (err.find("Assertion") != std::string::npos && err.find("failed") != std::string::npos)
     return "assertion";
   if (err.find("terminate called") != std::string::npos)
